@@ -376,8 +376,8 @@ pub fn run(ctx: &mut Ctx) {
 	ctx.assume("only defined access-flag bits are generated (duke models flags as named booleans)");
 	ctx.assume("annotation attributes without annotations and empty debug tables state no fact; unused constant pool / bootstrap entries are not facts");
 	ctx.assume("strings are valid Unicode (no unpaired surrogates); names are valid for duke's name types");
-	ctx.run_sub("reader_fidelity", ctx.tier.pick(24000, 1200000), strategy, fidelity);
-	ctx.run_sub("large_methods", ctx.tier.pick(600, 30000), crate::props::c02::geo_strategy, large);
+	ctx.run_sub("reader_fidelity", ctx.tier.pick(48000, 1200000), strategy, fidelity);
+	ctx.run_sub("large_methods", ctx.tier.pick(1200, 30000), crate::props::c02::geo_strategy, large);
 	corpus(ctx);
 	fuzz(ctx);
 }
